@@ -97,6 +97,8 @@ static void rec_double(const char * src, double v) {
     char s[64];
     memcpy(&bits, &v, 8);
     head("d", src, bits, v);
+    /* the same number was formatted as a float just before (a formatter must not remember anything) */
+    SCPI_FloatToStr((float) v, s, sizeof s);
     memset(s, 0x55, sizeof s);
     SCPI_DoubleToStr(v, s, sizeof s);
     s[sizeof s - 1] = 0;
@@ -147,6 +149,7 @@ static void rec_float(const char * src, float f) {
     char s[64];
     memcpy(&bits, &f, 4);
     head("f", src, (uint64_t) bits, (double) f);
+    SCPI_DoubleToStr((double) f, s, sizeof s);       /* and the other way round */
     memset(s, 0x55, sizeof s);
     SCPI_FloatToStr(f, s, sizeof s);
     s[sizeof s - 1] = 0;
